@@ -502,3 +502,12 @@ Example C05_nonvacuous_rejected :
   write the_schema tat true (Some [[dfm; "c"]]) None (Some [["default_int32"; "x"]]) None st0 wr0 = WErr code_invalid_argument /\
   write the_schema tat false None None (Some [["default_int32"]]) (Some [["zzz"]]) st0 wr0 = WErr code_internal.
 Proof. vm_compute. repeat split; reflexivity. Qed.
+
+(* Print Assumptions for every theorem above that did not have its own line yet *)
+Print Assumptions C05_more_update_v0_refuted.
+Print Assumptions C05_invalid_writable_panics.
+Print Assumptions C05_duplicate_v0_refuted.
+Print Assumptions C05_parent_of_writable_v0_refuted.
+Print Assumptions C05_count_coincidence_v0_refuted.
+Print Assumptions C05_prune_empty_v0_refuted.
+Print Assumptions C05_parent_and_child_v0_refuted.
